@@ -128,7 +128,9 @@ func runC03(b *mon.B) {
 			if !b.Want(caseNo) {
 				continue
 			}
-			srv.Plan.set(sid, planStep{Reply: &rawBody{B: rep}})
+			// every fourth reply goes out through Response.Write with a header copied from the
+			// request: its length field is stale (the request's), the writer has to refresh it
+			srv.Plan.set(sid, planStep{Reply: &rawBody{B: rep}, UseWrite: caseNo%4 == 3})
 			written, stray, invs, st, err := srv.step(conn, pktSpec{H: h, Clear: clear}.wire(secret))
 			if err != nil {
 				b.Inconclusive("case %d: %v", caseNo, err)
@@ -284,10 +286,31 @@ func runC03(b *mon.B) {
 		conn.Feed(pktSpec{H: rh, Clear: repClear}.wire(secret))
 		conn.EOF()
 		body := append([]byte{}, reqClear...)
-		req := tq.NewPacket(tq.SetPacketHeader(tq.NewHeader(tq.SetHeaderVersion(tq.Version{MajorVersion: 0xc, MinorVersion: uint8(minor)}), tq.SetHeaderType(tq.HeaderType(typ)),
-			tq.SetHeaderSeqNo(seq), tq.SetHeaderFlag(tq.HeaderFlag(fl)), tq.SetHeaderSessionID(tq.SessionID(sid)))), tq.SetPacketBody(body))
+		hdr := tq.NewHeader(tq.SetHeaderVersion(tq.Version{MajorVersion: 0xc, MinorVersion: uint8(minor)}), tq.SetHeaderType(tq.HeaderType(typ)),
+			tq.SetHeaderSeqNo(seq), tq.SetHeaderFlag(tq.HeaderFlag(fl)), tq.SetHeaderSessionID(tq.SessionID(sid)))
+		// the ways a caller can put a packet together; the length field of the header is the
+		// writer's business whatever the caller left in it
+		var req *tq.Packet
+		style := k % 5
+		switch style {
+		case 0:
+			req = tq.NewPacket(tq.SetPacketHeader(hdr), tq.SetPacketBody(body))
+		case 1:
+			req = tq.NewPacket(tq.SetPacketBody(body), tq.SetPacketHeader(hdr))
+		case 2:
+			req = &tq.Packet{Header: hdr, Body: body}
+		case 3: // stale length, shorter than the body (a reused header)
+			req = &tq.Packet{Header: hdr, Body: body}
+			if reqLen > 0 {
+				hdr.Length = uint32(r.Intn(reqLen))
+			}
+		case 4: // stale length, longer than the body
+			req = &tq.Packet{Header: hdr, Body: body}
+			hdr.Length = uint32(reqLen + 1 + r.Intn(300))
+		}
+		b.Class("client/packet-built-style%d", style)
 		got, err := cl.Send(req)
-		w := map[string]interface{}{"secret": hexs(secret), "seq": seq, "flags": fl, "session": sid, "request_len": reqLen, "reply_len": repLen}
+		w := map[string]interface{}{"secret": hexs(secret), "seq": seq, "flags": fl, "session": sid, "request_len": reqLen, "reply_len": repLen, "packet_style": style}
 		wantWire := pktSpec{H: rfc8907.Header{Major: 0xc, Minor: minor, Type: typ, Seq: seq, Flags: fl, Session: sid}, Clear: reqClear}.wire(secret)
 		out := conn.Output()
 		if !bytes.Equal(out, wantWire) {
